@@ -92,6 +92,27 @@ func ruleRREQ(c *Ctx, rule string) {
 					if x.Call.StaticCallee() == c.A.F("parseReq") {
 						return false
 					}
+					// a copy of the parsed map from which directives are only removed (never added or changed)
+					if sc := x.Call.StaticCallee(); sc != nil {
+						n := sc.String()
+						if o := sc.Origin(); o != nil {
+							n = o.String()
+						}
+						if strings.HasPrefix(n, "maps.Clone") && len(x.Call.Args) == 1 && !c.mapUpdated(x) {
+							c.P.TraceBack(x.Call.Args[0], TraceOpts{}, func(w ssa.Value, _ []int) bool {
+								if cc, ok := w.(*ssa.Call); ok {
+									if cc.Call.StaticCallee() == c.A.F("parseReq") {
+										return false
+									}
+									if len(c.P.RepoCallees(cc)) == 0 {
+										okAll, why = false, "map cloned from "+cc.String()
+									}
+								}
+								return true
+							})
+							return false
+						}
+					}
 					if len(c.P.RepoCallees(x)) == 0 {
 						okAll, why = false, "map produced by "+x.String()
 					}
@@ -232,4 +253,17 @@ func ruleNOREFLECT(c *Ctx, rule string) {
 		return
 	}
 	c.Pass(rule, "no-reflect", "repo packages do not use reflect/unsafe/linkname", fmt.Sprintf("%d packages scanned", n))
+}
+
+// mapUpdated: some instruction stores an element into the map value m (directly; m is a fresh clone held in a local).
+func (c *Ctx) mapUpdated(m ssa.Value) bool {
+	upd := false
+	if refs := m.Referrers(); refs != nil {
+		for _, r := range *refs {
+			if mu, ok := r.(*ssa.MapUpdate); ok && mu.Map == m {
+				upd = true
+			}
+		}
+	}
+	return upd
 }
